@@ -155,6 +155,10 @@ def metric(ctx) -> None:
             prd = 'label' not in (b['pred'] or '').lower()
             ctx.check(lab and prd, 'C12.metric', ofn, f'Outcome(true={b["true"]}, pred={b["pred"]}): `true` comes from a label path, `pred` from a prediction path', c, key=f'Outcome:{ofn.qual}')
     ctx.floor('C12.outcome-sites', nout, 2)
+    mn = prog.func(f'{METRIC}:mean')
+    vb = [core.src(x) for x in mn.body if not (isinstance(x, ast.Expr) and isinstance(x.value, ast.Constant))]
+    va = mn.node.args.vararg.arg if mn.node.args.vararg else None
+    ctx.check(va is not None and vb == [f'return statistics.mean({va})'], 'C12.metric', mn, f'the default reducer averages *all* fold scores (a fold scoring 0.0 counts like any other): {vb}', mn.node, key='mean:all-values')
     oc = prog.cls('forml.evaluation._api:Outcome')
     ctx.check(list(oc.annotations)[:2] == ['true', 'pred'], 'C12.metric', oc.ref, 'Outcome fields are (true, pred)', key='Outcome:fields', loc=oc.module.relpath)
 
